@@ -524,3 +524,103 @@ contract(
     properties=("C01",),
     note="the documented blend t*(1-H)+f*H with H = 1/(1+exp((a-b)/sigma)), multiplied through by (1+exp(..)) to stay polynomial",
 )
+
+# ---- schemes.fraction_numerator_is_nonzero (C06: no division by zero without a guard) ---------------------
+SCH = "gotranx.schemes."
+ARGS = core.uf("sp.args", S, TSeq(TSym).sort())
+FREE = core.uf("sp.free_symbols", S, TSet(TSym).sort())
+ISNZ = core.uf("sp.is_nonzero", S, z3.BoolSort())
+
+defspec("prod_den", {"XS": "Seq[Sym]", "env": "Env", "j": "Int"}, "Real", """
+def prod_den(XS, env, j):
+    if j <= 0:
+        return 1.0
+    return prod_den(XS, env, j - 1) * den(XS[j - 1], env)
+""")
+defspec("certain", {"e": "Sym"}, "Bool", """
+def certain(e):
+    return len(e.free_symbols) == 0 and e.is_nonzero
+""")
+defspec("filter_certain", {"XS": "Seq[Sym]", "j": "Int"}, "Seq[Sym]", """
+def filter_certain(XS, j):
+    if j <= 0:
+        return empty("Seq[Sym]")
+    if certain(XS[j - 1]):
+        return filter_certain(XS, j - 1) + [XS[j - 1]]
+    return filter_certain(XS, j - 1)
+""")
+defspec("filter_potential", {"XS": "Seq[Sym]", "j": "Int"}, "Seq[Sym]", """
+def filter_potential(XS, j):
+    if j <= 0:
+        return empty("Seq[Sym]")
+    if not certain(XS[j - 1]):
+        return filter_potential(XS, j - 1) + [XS[j - 1]]
+    return filter_potential(XS, j - 1)
+""")
+defspec("all_nz", {"XS": "Seq[Sym]", "env": "Env", "j": "Int"}, "Bool", """
+def all_nz(XS, env, j):
+    if j <= 0:
+        return True
+    return all_nz(XS, env, j - 1) and den(XS[j - 1], env) != 0
+""")
+
+
+DOM = core.uf("reciprocals_defined", E, z3.BoolSort())
+
+
+def _envs():
+    return list(core.QUERY_CONSTS.get("Env", {}).values())
+
+
+def _args_axioms(app):
+    """ASSUMED sympy semantics of .args for Mul and Pow, for the environments of the query, and
+    `reciprocals_defined(env)`: at env the base of every reciprocal a**-1 is non-zero"""
+    (e,) = app.children()
+    pd = registry.SPECS["prod_den"]
+    pd.define()
+    m1 = sym(-1).t
+    out = [z3.Implies(sp_cls(e) == SP_CLASSES.index("Pow"), z3.Length(app) == 2)]
+    for env in _envs():
+        d = DEN(e, env)
+        out += [
+            z3.Implies(sp_cls(e) == SP_CLASSES.index("Mul"), d == pd.decl()(app, env, z3.Length(app))),
+            z3.Implies(z3.And(sp_cls(e) == SP_CLASSES.index("Pow"), app[1] == m1, DEN(app[0], env) != 0), d * DEN(app[0], env) == 1),
+            z3.Implies(z3.And(DOM(env), sp_cls(e) == SP_CLASSES.index("Pow"), app[1] == m1), DEN(app[0], env) != 0),
+        ]
+    return out
+
+
+def _isnz_axioms(app):
+    """ASSUMED: a constant expression (no free symbols) whose is_nonzero is True denotes a non-zero number"""
+    (e,) = app.children()
+    card = core.uf(f"card<{TSym!r}>", TSet(TSym).sort(), z3.IntSort())
+    return [z3.Implies(z3.And(app, card(FREE(e)) == 0), DEN(e, env) != 0) for env in _envs()]
+
+
+core.TERM_AXIOMS["sp.args"] = _args_axioms
+core.TERM_AXIOMS["sp.is_nonzero"] = _isnz_axioms
+
+c = CONTRACTS[SCH + "fraction_numerator_is_nonzero"]
+c.ghost = {"env": "Env"}
+c.ghost_requires = ["reciprocals_defined(env)"]
+c.ensures["certainly_nonzero"] = "implies(result, den(expr, env) != 0)"
+c.loops = {0: {"invariant": {"certain": "certainly_nonzero_args == filter_certain(args, k)",
+                             "potential": "potentially_nonzero_args == filter_potential(args, k)"},
+               "types": {"certainly_nonzero_args": "Seq[Sym]", "potentially_nonzero_args": "Seq[Sym]"}},
+           1: {"invariant": {"all_nonzero_so_far": "all_nz(potentially_nonzero_args, env, k)"}}}
+c.uses = [("C06.certain_nonzero", {"XS": "expr.args", "env": "env", "j": "len(expr.args)"}),
+          ("C06.product_nonzero", {"XS": "expr.args", "env": "env", "j": "len(expr.args)"})]
+c.properties = ("C06",)
+
+
+@registry.spec("reciprocals_defined")
+def _recip(ctx, st, env):
+    return SV(TBool, DOM(env.t))
+
+
+defspec("certain_all_nz", {"XS": "Seq[Sym]", "env": "Env", "j": "Int"}, "Bool", """
+def certain_all_nz(XS, env, j):
+    if j <= 0:
+        return True
+    return certain_all_nz(XS, env, j - 1) and implies(certain(XS[j - 1]), den(XS[j - 1], env) != 0)
+""")
